@@ -25,6 +25,8 @@ func init() {
 			cliHistories(c, "C11", cliOpts{MsgSize: []int{2052}, NoRetransmit: true}, alpha, depth-1, eps, "Hnr")
 			cliHistories(c, "C11", cliOpts{MsgSize: []int{24}, RTO: 1}, alpha, depth-1, eps, "Hrto1ns")
 			cliHistories(c, "C11", cliOpts{MsgSize: []int{1024}, RTO: 1000000}, alpha, depth-2, eps, "Hrto1ms")
+			// the caller assigned Type and Length without encoding them: what goes out is Raw as it was at Start, every time
+			cliHistories(c, "C11", cliOpts{MsgSize: []int{24}, StaleFields: true}, alpha, depth-2, eps, "Hstale")
 			// time scales: early ticks (the collector fires between deadlines), and RTOs of 2 minutes, 100 and 250 years
 			// (deadlines beyond what a 64-bit nanosecond count since 1970 can hold)
 			slow := []cliEv{{K: "start", I: 0}, {K: "tick", Arg: 4}, {K: "tick", Arg: 5}, {K: "tick", Arg: 0}, {K: "tick", Arg: 1}, {K: "resp", I: 0}, {K: "failwrite"}, {K: "failwrite", Arg: 1}}
@@ -73,6 +75,8 @@ func init() {
 				{TwoClients: true, Opts: cliOpts{MsgSize: []int{3000}}, Setup: []cliEv{{K: "start", I: 0}, {K: "start2", I: 1}}, Threads: [][]cliEv{nil, {tickAfter, tickAfter}, {{K: "tick2"}, {K: "tick2"}}}, Epilogue: "drain+close"},
 				// Start(A) || a tick that times A out for good (no re-transmission) || Start(B) taking A's recycled object
 				{Opts: cliOpts{MsgSize: []int{100, 60}, NoRetransmit: true, PoolFanout: true}, Threads: [][]cliEv{nil, {{K: "start", I: 0}}, {{K: "tick", Arg: 2}}, {{K: "start", I: 1}}}, Epilogue: "drain+close"},
+				// re-transmission of a request larger than the scratch buffer || its response || Start(B) taking the recycled object
+				{Opts: cliOpts{MsgSize: []int{3000, 2600}}, Setup: []cliEv{{K: "start", I: 0}}, Threads: [][]cliEv{nil, {tickAfter}, {{K: "resp", I: 0}}, {{K: "start", I: 1}}}, Epilogue: "drain+close"},
 			} {
 				cliExplore(c, "C11", sc, 2, true, fmt.Sprintf("S%d", i+1))
 			}
@@ -131,6 +135,9 @@ func init() {
 				{Threads: [][]cliEv{nil, {ev("do", 0)}, {ev("do", 1)}, {ev("resp", 1), ev("resp", 0)}}, Epilogue: "drain+close", Opts: cliOpts{PoolFanout: true, Fallback: true}},
 				{Threads: [][]cliEv{nil, {ev("start", 0), ev("start", 1)}, {ev("start", 2)}, {ev("resp", 2), ev("resp", 0), ev("resp", 1), ev("resp", 0)}}, Epilogue: "drain+close", Opts: cliOpts{Fallback: true}},
 				{Setup: []cliEv{ev("start", 0), {K: "failwrite"}}, Threads: [][]cliEv{nil, {tickAfter}, {ev("resp", 0)}, {ev("start", 1), ev("resp", 1)}}, Probe: true, Epilogue: "drain+close", Opts: cliOpts{PoolFanout: true, Fallback: true}},
+				// the answer arrives as fast as causality allows: right after the request was written, while Start is still running
+				{Threads: [][]cliEv{nil, {ev("start", 0)}, {ev("resp", 0)}}, Epilogue: "drain+close", Opts: cliOpts{Fallback: true, NoRetransmit: true}},
+				{Threads: [][]cliEv{nil, {ev("do", 0)}, {ev("resp", 0)}, {ev("start", 1)}}, Epilogue: "drain+close", Opts: cliOpts{Fallback: true}},
 			} {
 				cliExplore(c, "C12", sc, pb, true, fmt.Sprintf("S%d", i+1))
 			}
@@ -175,6 +182,7 @@ func init() {
 				{ConnCloseErr: true, AgentCloseErr: true}, {NoConnClose: true, ConnCloseErr: true, AgentCloseErr: true}, {RTO: 1000000, Fallback: true, NoConnClose: true},
 				{Reentrant: true}, {Reentrant: true, NoRetransmit: true},
 				{ConnCloseErr: true, AgentCloseErr: true, SentinelErrs: true}, {AgentCloseErr: true, SentinelErrs: true, NoConnClose: true},
+				{ConnCloseErr: true, CloseTimeout: true}, {ConnCloseErr: true, CloseTimeout: true, AgentCloseErr: true, NoRetransmit: true},
 			}
 			for i, o := range optSets {
 				d := depth
